@@ -276,6 +276,104 @@ def rectilinear_polygon(rng, w, h, ncells):
     return pts
 
 
+def cells_boundary(cells):
+    """boundary ring (counter-clockwise) of a set of unit cells, or None if it is not one simple ring (pinched / holed / disconnected)"""
+    edges = {}
+    for (x, y) in cells:
+        for a, b in (((x, y), (x + 1, y)), ((x + 1, y), (x + 1, y + 1)), ((x + 1, y + 1), (x, y + 1)), ((x, y + 1), (x, y))):
+            if (b, a) in edges:
+                del edges[(b, a)]
+            else:
+                edges[(a, b)] = True
+    nxt = {}
+    for a, b in edges:
+        nxt.setdefault(a, []).append(b)
+    if not nxt or any(len(v) != 1 for v in nxt.values()):
+        return None
+    start = min(nxt)
+    pts = [start]; cur = nxt[start][0]
+    while cur != start:
+        pts.append(cur); cur = nxt[cur][0]
+        if len(pts) > len(edges) + 2:
+            return None
+    pts.append(start)
+    if len(pts) - 1 != len(edges):
+        return None
+    return pts
+
+
+def gen_polygon_nested_holes(rng):
+    """valid polygon whose holes are CONCAVE cell shapes grown side by side in one small grid: the holes are disjoint (no two cells of
+    different holes touch, not even at a corner) but their envelopes overlap or nest (L / U / C shaped holes with other holes in their
+    notches). Returns (shell, holes, cellsets, S) in doubled cell coordinates (cell size 2: cell centres and edge midpoints are lattice points)."""
+    for _ in range(40):
+        g = rng.randint(4, 7)
+        nh = rng.choice([2, 2, 3, 3, 4])
+        sets = []
+        taken = set()
+        ok = True
+        for _h in range(nh):
+            free = [(x, y) for x in range(g) for y in range(g)
+                    if all((x + dx, y + dy) not in taken for dx in (-1, 0, 1) for dy in (-1, 0, 1))]
+            if not free:
+                ok = False; break
+            cells = {rng.choice(free)}
+            target = rng.choice([1, 2, 3, 5, 7, 9])
+            for _t in range(60):
+                if len(cells) >= target:
+                    break
+                cx, cy = rng.choice(sorted(cells)); dx, dy = rng.choice([(1, 0), (-1, 0), (0, 1), (0, -1)])
+                c = (cx + dx, cy + dy)
+                if 0 <= c[0] < g and 0 <= c[1] < g and c not in cells and \
+                        all((c[0] + ex, c[1] + ey) not in taken for ex in (-1, 0, 1) for ey in (-1, 0, 1)):
+                    cells.add(c)
+            ring = cells_boundary(cells)
+            if ring is None:
+                ok = False; break
+            sets.append((cells, ring)); taken |= cells
+        if not ok or len(sets) < 2:
+            continue
+        boxes = [(min(x for x, _ in r), max(x for x, _ in r), min(y for _, y in r), max(y for _, y in r)) for _, r in sets]
+        overlap = any(not (a[1] < b[0] or b[1] < a[0] or a[3] < b[2] or b[3] < a[2]) for i, a in enumerate(boxes) for b in boxes[i + 1:])
+        if not overlap:
+            continue
+        m = rng.randint(1, 2)
+        shell = [(-m, -m), (g + m, -m), (g + m, g + m), (-m, g + m), (-m, -m)]
+        if rng.random() < 0.4:               # a non-rectangular shell around the same grid
+            shell = [(-m, -m), (g // 2, -m - 1), (g + m, -m), (g + m + 1, g // 2), (g + m, g + m), (-m, g + m), (-m, -m)]
+        holes = []
+        for cells, ring in sets:
+            r = ring[::-1] if rng.random() < 0.5 else ring
+            if rng.random() < 0.5:
+                j = rng.randrange(len(r) - 1); r = r[j:-1] + r[:j] + [r[j]]
+            holes.append(r)
+        o = (rng.randint(-30, 30), rng.randint(-30, 30)) if rng.random() < 0.7 else (rng.randint(-2 ** 22, 2 ** 22), rng.randint(-2 ** 22, 2 ** 22))
+        T = lambda q: (2 * q[0] + o[0], 2 * q[1] + o[1])
+        return [T(q) for q in shell], [[T(q) for q in h] for h in holes], [c for c, _ in sets], (g, o)
+    return None, None, None, None
+
+
+def nested_hole_points(rng, holes, cellsets, g, o, n):
+    """query points aimed at each hole: its vertices, edge midpoints, centres of its cells, and centres of the cells that are NOT in
+    any hole but inside the envelope of one (the notch of a concave hole, the gap between two holes)"""
+    pts = []
+    allc = set().union(*cellsets)
+    centre = lambda c: (2 * c[0] + 1 + o[0], 2 * c[1] + 1 + o[1])
+    for h, cells in zip(holes, cellsets):
+        i = rng.randrange(len(h) - 1)
+        a, b = h[i], h[i + 1]
+        pts.append(('hole-vertex', a))
+        pts.append(('hole-edge-mid', ((a[0] + b[0]) // 2, (a[1] + b[1]) // 2)))
+        pts.append(('hole-cell', centre(rng.choice(sorted(cells)))))
+        xs = [c[0] for c in cells]; ys = [c[1] for c in cells]
+        notch = [(x, y) for x in range(min(xs), max(xs) + 1) for y in range(min(ys), max(ys) + 1) if (x, y) not in allc]
+        if notch:
+            pts.append(('notch-cell', centre(rng.choice(notch))))
+    while len(pts) < n:
+        pts.append(('grid-random', (rng.randint(-3, 2 * g + 3) + o[0], rng.randint(-3, 2 * g + 3) + o[1])))
+    return pts
+
+
 def gen_simple_ring(rng):
     k = rng.random()
     if k < 0.35:
@@ -587,7 +685,7 @@ def run(ctx):
         ctx.sample(l[:300])
     # self-check of the generators: every proof case must have been drawn
     need = ['orient:det=0', 'orient:det=1', 'orient:det=-1', 'orient:det=2', 'orient:filter-fails', 'orient:filter-decides',
-            'ring:B', 'ring:I', 'ring:E', 'ring:pt:vertex', 'ring:pt:vertex-y', 'ring:pt:edge-mid', 'poly:B', 'poly:I', 'poly:E', 'poly:in-hole',
+            'ring:B', 'ring:I', 'ring:E', 'ring:pt:vertex', 'ring:pt:vertex-y', 'ring:pt:edge-mid', 'poly:B', 'poly:I', 'poly:E', 'poly:in-hole', 'poly:nested:later-hole-behind-earlier-envelope', 'poly:nested:pt:notch-cell', 'poly:nested:pt:hole-cell',
             'seg:N', 'seg:P:proper', 'seg:P:endpoint', 'seg:C', 'seg:kind:collinear', 'seg:kind:zero-length', 'seg:kind:shared-endpoint',
             'seg:kind:near-parallel', 'ccw:ccw', 'ccw:cw', 'float:orient', 'float:near-collinear', 'float:dd', 'float:intersection', 'float:wide-collinear', 'float:segments', 'float:ring']
     for k in need:
@@ -707,7 +805,32 @@ def build_rings(ctx, rng, st, bump, nrings):
             st.add(line_ring(k, p, ring), ring_check(p, ring, closed, bump, kind), kind='ring', nontrivial=nontriv, ring=ring, p=p, closed=closed)
 
 
+def poly_check(p, rings, bump):
+    exp = locate_polygon_oracle(p, rings)
+
+    def chk(io, mo):
+        t = io.split()
+        bump('poly:' + exp)
+        names = ['SimplePointInAreaLocator::locate', 'IndexedPointInAreaLocator::locate']
+        for j in (0, 1):
+            if t[j] != exp:
+                return '%s returned %s, exact location is %s' % (names[j], t[j], exp)
+        inter = '0' if exp == 'E' else '1'; cont = '1' if exp == 'I' else '0'; touch = '1' if exp == 'B' else '0'
+        for nm, v, e in (('GEOSPreparedIntersectsXY_r', t[2], inter), ('GEOSPreparedContainsXY_r', t[3], cont), ('GEOSIntersects_r(polygon, point)', t[4], inter),
+                         ('GEOSContains_r(polygon, point)', t[5], cont), ('GEOSPreparedIntersects_r(point)', t[6], inter),
+                         ('GEOSTouches_r(polygon, point)', t[7], touch), ('GEOSRelate_r(polygon, point) location of the point', t[8], exp)):
+            if v != e:
+                return '%s returned %s, exact location is %s' % (nm, v, exp)
+        if mo is not None:
+            m = mo.split()
+            if m[0] != exp or m[1] != exp or m[2] != exp:
+                return 'MODEL locate_polygon / with envelopes / even-odd over all rings = %s, exact location = %s' % (mo, exp)
+        return None
+    return chk, exp
+
+
 def build_polygons(ctx, rng, st, bump, npoly):
+    import itertools
     made = 0
     while made < npoly:
         shell, holes = gen_polygon(rng)
@@ -723,29 +846,36 @@ def build_polygons(ctx, rng, st, bump, npoly):
             xs = [v[0] for v in h]; ys = [v[1] for v in h]
             pts.append(('in-hole-box', ((min(xs) + max(xs)) // 2, (min(ys) + max(ys)) // 2)))
         for pk, p in pts:
-            exp = locate_polygon_oracle(p, rings)
-            inhole = exp == 'E' and locate_oracle(p, shell) == 'I'
-            if inhole:
+            chk, exp = poly_check(p, rings, bump)
+            if exp == 'E' and locate_oracle(p, shell) == 'I':
                 bump('poly:in-hole')
-
-            def chk(io, mo, exp=exp):
-                t = io.split()
-                bump('poly:' + exp)
-                names = ['SimplePointInAreaLocator::locate', 'IndexedPointInAreaLocator::locate']
-                for j in (0, 1):
-                    if t[j] != exp:
-                        return '%s returned %s, exact location is %s' % (names[j], t[j], exp)
-                inter = '0' if exp == 'E' else '1'; cont = '1' if exp == 'I' else '0'
-                for nm, v, e in (('GEOSPreparedIntersectsXY_r', t[2], inter), ('GEOSPreparedContainsXY_r', t[3], cont), ('GEOSIntersects_r(polygon, point)', t[4], inter),
-                                 ('GEOSContains_r(polygon, point)', t[5], cont), ('GEOSPreparedIntersects_r(point)', t[6], inter)):
-                    if v != e:
-                        return '%s returned %s, exact location is %s' % (nm, v, exp)
-                if mo is not None:
-                    m = mo.split()
-                    if m[0] != exp or m[1] != exp or m[2] != exp:
-                        return 'MODEL locate_polygon / with envelopes / even-odd over all rings = %s, exact location = %s' % (mo, exp)
-                return None
             st.add(line_poly(k, p, rings), chk, kind='poly', nontrivial=(exp == 'B' or any(v[1] == p[1] for r in rings for v in r)), rings=rings, p=p)
+    # holes with overlapping / nested envelopes (concave holes with other holes in their notches), every hole order
+    made = 0
+    while made < max(20, npoly // 4):
+        shell, holes, cellsets, go = gen_polygon_nested_holes(rng)
+        if shell is None:
+            continue
+        made += 1
+        g, o = go
+        bump('poly:nested:holes=%d' % len(holes))
+        k = rng.choice(SCALES)
+        pts = nested_hole_points(rng, holes, cellsets, g, o, 3 * len(holes) + 3)
+        orders = list(itertools.permutations(range(len(holes))))
+        if len(orders) > 6:
+            orders = rng.sample(orders, 6)
+        for pk, p in pts:
+            for od in orders:
+                rings = [shell] + [holes[i] for i in od]
+                chk, exp = poly_check(p, rings, bump)
+                bump('poly:nested:pt:' + pk)
+                if exp != 'I':
+                    # position (in the ring list) of the hole that decides, and whether an EARLIER hole's envelope also contains the point
+                    pos = next((j for j, h in enumerate(rings[1:]) if locate_oracle(p, h) != 'E'), None)
+                    if pos is not None and any(min(v[0] for v in h) <= p[0] <= max(v[0] for v in h) and min(v[1] for v in h) <= p[1] <= max(v[1] for v in h)
+                                               for h in rings[1:1 + pos]):
+                        bump('poly:nested:later-hole-behind-earlier-envelope')
+                st.add(line_poly(k, p, rings), chk, kind='poly', nontrivial=True, rings=rings, p=p)
 
 
 # ------------------------------------------------------------------------------------------------ segments
@@ -1042,6 +1172,11 @@ def corpus_check(line):
     if tag == 'R':
         p = (int(w[2]), int(w[3])); n = int(w[4]); ring = pairs(ints(w[5:5 + 2 * n]))
         return ring_check(p, ring, len(ring) >= 2 and ring[0] == ring[-1], nop, 'corpus')
+    if tag == 'P':
+        p = (int(w[2]), int(w[3])); nr = int(w[4]); pos = 5; rings = []
+        for _ in range(nr):
+            n = int(w[pos]); rings.append(pairs(ints(w[pos + 1:pos + 1 + 2 * n]))); pos += 1 + 2 * n
+        return poly_check(p, rings, nop)[0]
     if tag == 'O':
         a, b, c = pairs(ints(w[2:8])); s = sgn(det(a, b, c))
 
@@ -1071,6 +1206,8 @@ def shrink(ctx, hexe, drv, line, check, meta):
     try:
         w = line.split()
         tag = w[0]
+        if tag == 'P':
+            return shrink_poly(ctx, hexe, drv, w)
         if tag not in ('O', 'S', 'R', 'E', 'C'):
             return None
 
@@ -1138,3 +1275,42 @@ def shrink(ctx, hexe, drv, line, check, meta):
         return ' '.join(cur)
     except Exception:
         return None
+
+
+def shrink_poly(ctx, hexe, drv, w):
+    """polygon cases: drop the scale, delete holes one at a time, translate to the origin, while the same kind of check still fails"""
+    def parse(w):
+        k = int(w[1]); p = (int(w[2]), int(w[3])); nr = int(w[4]); pos = 5; rings = []
+        for _ in range(nr):
+            n = int(w[pos]); v = [int(x) for x in w[pos + 1:pos + 1 + 2 * n]]
+            rings.append([(v[i], v[i + 1]) for i in range(0, len(v), 2)]); pos += 1 + 2 * n
+        return k, p, rings
+
+    def fails(k, p, rings):
+        l = line_poly(k, p, rings)
+        io = ctx.run_lines([hexe], [l], timeout=20)[0]
+        mo = ctx.run_lines([drv], [l], timeout=20)[0] if drv else None
+        if io.startswith('CRASH') or io == 'TIMEOUT':
+            return True
+        try:
+            return bool(poly_check(p, rings, lambda *a: None)[0](io, mo))
+        except Exception:
+            return False
+    k, p, rings = parse(w)
+    if not fails(k, p, rings):
+        return None
+    if k != 0 and fails(0, p, rings):
+        k = 0
+    changed = True
+    while changed:
+        changed = False
+        for j in range(1, len(rings)):
+            cand = rings[:j] + rings[j + 1:]
+            if fails(k, p, cand):
+                rings = cand; changed = True
+                break
+    ox = min(v[0] for r in rings for v in r); oy = min(v[1] for r in rings for v in r)
+    cand = [[(x - ox, y - oy) for x, y in r] for r in rings]; cp = (p[0] - ox, p[1] - oy)
+    if fails(k, cp, cand):
+        rings, p = cand, cp
+    return line_poly(k, p, rings)
